@@ -455,6 +455,13 @@ func genCase(t *rapid.T, store string, minOps, maxOps int) kase {
 		}
 		c.Ops = append(c.Ops, o)
 	}
+	if store == "file" && rapid.Bool().Draw(t, "cross-import") {
+		// the blob of one name imported into another name with that name's own (correct) password:
+		// the import has to fail when the passwords differ, and must leave the target as it was
+		from := rapid.IntRange(0, 1).Draw(t, "xfrom")
+		c.Ops = append(c.Ops, op{K: "export", N: from, Right: true}, op{K: "import", N: 1 - from, Right: true, P: 0, B: -1},
+			op{K: "key", N: 1 - from, Right: true})
+	}
 	return c
 }
 
@@ -572,7 +579,7 @@ func TestC36_Mem(t *testing.T) {
 	r := evid.Get(id)
 	evid.Finish(t, r)
 	r.SetRule(rule)
-	evid.Checks(1500)
+	evid.Checks(2500)
 	rapid.Check(t, func(t *rapid.T) {
 		c := genCase(t, "mem", 2, 24)
 		f, flags := run(r, c)
